@@ -46,7 +46,54 @@ theorem C02_gen_config_not_assigned : Generated.C02.startTLSAssignsCapturedConfi
 theorem C02_gen_first_flag_not_from_data : Generated.C02.firstFlagFromData = some false := by
   decide
 
-/-! ### Nothing but the header and the STARTTLS request in clear text; ready only when secured -/
+/-- session.go `negotiateSession`: the test that sets `Secure` before any negotiation is a type
+assertion to `*tls.Conn` — not to an interface (such as "has a `ConnectionState()` method") that
+a clear-text wrapper can satisfy.  The model's `ConnKind.startsSecure` is that test. -/
+theorem C02_gen_initial_secure_is_tls_conn_assertion :
+    Generated.C02.initialSecureAssertsTLSConn = some true := by
+  decide
+
+/-! ### What makes a session start `Secure`: the kind of connection -/
+
+/-- **Only a real TLS connection starts `Secure`.**  Whatever `io.ReadWriter` the session is
+created on — a plain one, a `net.Conn`, a clear-text wrapper with a `ConnectionState()` method,
+a `*tls.Conn` — a TLS layer is in place from the start, and `Secure` is set by the library, exactly
+when it is a `*tls.Conn`. -/
+theorem C02_starts_secure_only_on_tls (env : Env) (st0 : Mask) (i : Input) (hs : has st0 Secure = false) :
+    (init env st0 i).tls = env.conn.startsSecure ∧
+    (has (init env st0 i).state Secure = true ↔ ∃ n, env.conn = .tlsConn n) := by
+  refine ⟨rfl, ?_⟩
+  cases hc : env.conn with
+  | tlsConn n =>
+    simp only [init, hc, ConnKind.startsSecure, if_true]
+    exact ⟨fun _ => ⟨n, rfl⟩, fun _ => has_or_self st0 Secure⟩
+  | plainRW => simp [init, hc, ConnKind.startsSecure, hs]
+  | netConn => simp [init, hc, ConnKind.startsSecure, hs]
+  | stateMethod => simp [init, hc, ConnKind.startsSecure, hs]
+
+/-- a clear-text connection is a clear-text connection, with or without a `ConnectionState()`
+method, `net.Conn` or not: the runs are identical -/
+theorem C02_clear_connection_kinds_agree (cfg : Cfg) (env : Env) (st0 : Mask) (i : Input) (fuel : Nat) :
+    run cfg { env with conn := .stateMethod } st0 i fuel = run cfg { env with conn := .netConn } st0 i fuel ∧
+    run cfg { env with conn := .plainRW } st0 i fuel = run cfg { env with conn := .netConn } st0 i fuel :=
+  ⟨rfl, rfl⟩
+
+/-- on a `*tls.Conn` (already secure) no STARTTLS is attempted and nothing is written outside the
+layer; the outcome is a session on that layer or an error -/
+theorem C02_secure_connection_no_starttls (cfg : Cfg) (env : Env) (st0 : Mask) (hk : env.conn.startsSecure = true)
+    (i : Input) (fuel : Nat) :
+    (run cfg env st0 i fuel).1.filter isSig = [] ∧
+    ∀ st t h, (run cfg env st0 i fuel).2 = .done st t h → has st Secure = true ∧ t = true := by
+  have := run_secure_conn cfg env st0 hk i fuel
+  refine ⟨this.1, ?_⟩
+  intro st t h hd
+  have g := this.2
+  rw [hd] at g
+  exact g
+
+/-! ### Nothing but the header and the STARTTLS request in clear text; ready only when secured
+
+(for every kind of connection: `Env.conn` is universally quantified) -/
 
 /-- **No clear-text traffic.**  For every peer, every callback behaviour and every pick order:
 every write of the session that did not go through an installed TLS layer is the stream header
@@ -75,9 +122,10 @@ switches (`isSig`) is a prefix of `[header, STARTTLS request, switch]`: nothing 
 written in clear text, nothing is written in clear text after the switch, there is at most one
 switch, and it comes only after the request. -/
 theorem C02_clear_trace_shape (cfg : Cfg) (env : Env) (st0 : Mask) (hc : Compliant cfg.toFCfg st0)
-    (hs : has st0 Secure = false) (hr : has st0 Ready = false) (i : Input) (fuel : Nat) :
+    (hs : has st0 Secure = false) (hr : has st0 Ready = false) (hk : env.conn.startsSecure = false)
+    (i : Input) (fuel : Nat) :
     (run cfg env st0 i fuel).1.filter isSig <+: [.wHdr false, .wStartTLS false, .switch] := by
-  rcases (run_shape cfg env st0 hc hs hr i fuel).1 with h | h | h | h <;> rw [h]
+  rcases (run_shape cfg env st0 hc hs hr hk i fuel).1 with h | h | h | h <;> rw [h]
   · exact ⟨_, rfl⟩
   · exact ⟨[.wStartTLS false, .switch], rfl⟩
   · exact ⟨[.switch], rfl⟩
@@ -87,10 +135,11 @@ theorem C02_clear_trace_shape (cfg : Cfg) (env : Env) (st0 : Mask) (hc : Complia
 the header and the STARTTLS request were written in clear text and the TLS layer was installed
 after them (in particular the RFC 7590 attempt was made even if STARTTLS was not advertised). -/
 theorem C02_session_after_full_exchange (cfg : Cfg) (env : Env) (st0 : Mask) (hc : Compliant cfg.toFCfg st0)
-    (hs : has st0 Secure = false) (hr : has st0 Ready = false) (i : Input) (fuel : Nat)
+    (hs : has st0 Secure = false) (hr : has st0 Ready = false) (hk : env.conn.startsSecure = false)
+    (i : Input) (fuel : Nat)
     (st : Mask) (t hsk : Bool) (hd : (run cfg env st0 i fuel).2 = .done st t hsk) :
     (run cfg env st0 i fuel).1.filter isSig = [.wHdr false, .wStartTLS false, .switch] :=
-  (run_shape cfg env st0 hc hs hr i fuel).2 st t hsk hd
+  (run_shape cfg env st0 hc hs hr hk i fuel).2 st t hsk hd
 
 /-- the two theorems above in the words of the property: it suffices that every other
 configured feature has `Secure` among its `Necessary` bits -/
@@ -158,13 +207,14 @@ theorem C02_feature_value_unchanged (cfg : Cfg) (env : Env) (st0 : Mask) (i : In
 `StartTLS(nil)` — the domain of the session's own address (whatever the peer does, whether the
 handshake succeeds or not) -/
 theorem C02_hello_names (cfg : Cfg) (env : Env) (st0 : Mask) (i : Input) (fuel : Nat) (n : Name)
-    (h : Ev.hello n ∈ (run cfg env st0 i fuel).1) :
+    (hk : env.conn.startsSecure = false) (h : Ev.hello n ∈ (run cfg env st0 i fuel).1) :
     n = match env.captured with
         | some x => x
         | none => Name.dom env.domain := by
-  have := (run_names cfg env st0 i fuel).1 n h
-  rw [this]
-  cases env.captured <;> rfl
+  rcases (run_names cfg env st0 i fuel).1 n h with this | this
+  · rw [this]
+    cases env.captured <;> rfl
+  · cases hc : env.conn <;> simp [hc, ConnKind.name, ConnKind.startsSecure] at this hk
 
 /-- **The server name is a function of the local address only.**  Two sessions that differ only in
 their remote address (the `location` argument of `NewSession`: a hosting domain, the other
@@ -178,21 +228,21 @@ of `StartTLS(nil)`, every ClientHello of the k-th session names the domainpart o
 session's OWN address. -/
 theorem C02_servername (specs : List SessionSpec) :
     ∀ (k : Nat) (r : List Ev × Outcome) (x : SessionSpec),
-      (history none specs)[k]? = some r → specs[k]? = some x →
+      (history none specs)[k]? = some r → specs[k]? = some x → x.conn.startsSecure = false →
       ∀ n, Ev.hello n ∈ r.1 → n = Name.dom x.domain := by
   induction specs with
   | nil => intro k r x h; simp [history] at h
   | cons y rest ih =>
-    intro k r x hr hx n hn
+    intro k r x hr hx hk n hn
     cases k with
     | zero =>
       simp only [history, List.getElem?_cons_zero, Option.some.injEq] at hr hx
       subst hr hx
-      exact C02_hello_names y.cfg ⟨y.domain, y.remote, none⟩ y.state0 y.input y.fuel n hn
+      exact C02_hello_names y.cfg ⟨y.domain, y.remote, none, y.conn⟩ y.state0 y.input y.fuel n hk hn
     | succ k =>
       simp only [history, List.getElem?_cons_succ] at hr hx
       rw [C02_feature_value_unchanged] at hr
-      exact ih k r x hr hx n hn
+      exact ih k r x hr hx hk n hn
 
 /-- the feature-value-level summary used by the `sni` protocol line: the ClientHello names of a
 list of sessions (own domain, remote domain, s2s flag) that get as far as `kind` says -/
@@ -250,10 +300,11 @@ or the same result (mask, new layer) with sessions that still differ only in the
 TLS layer is installed the read-ahead is dropped: *that* depends on the cut, and is the subject
 of `C02_prebuffer_dropped`.) -/
 theorem C02_rechunking_clear_phase (tk : Tokeniser) (cfg : FCfg) (env : Env) (st0 : Mask) (cs1 cs2 : List Bs)
-    (prot : List PItem) (oracle : List (Nat × NegRes)) (fuel : Nat) (h : cs1.flatten = cs2.flatten) :
+    (prot : List PItem) (oracle : List (Nat × NegRes)) (fuel : Nat) (hk : env.conn.startsSecure = false)
+    (h : cs1.flatten = cs2.flatten) :
     RelRes (step cfg fuel (initBytes tk env st0 cs1 prot oracle))
            (step cfg fuel (initBytes tk env st0 cs2 prot oracle)) :=
-  step_sync cfg fuel _ _ (initBytes_sync tk env st0 cs1 cs2 prot oracle h)
+  step_sync cfg fuel _ _ (initBytes_sync tk env st0 cs1 cs2 prot oracle hk h)
 
 /-- the tokeniser contract is satisfiable, and the decoder does split/merge reads: "HP" delivered
 as one read or as two gives the same two units -/
@@ -283,7 +334,7 @@ theorem C02_list_not_done_while_required_pending (cfg : FCfg) (hsk : cfg.sk = tr
 sets Authn and a required one that needs Authn — "features advertised out of order", not Ready -/
 example :
     (run { rr := false, rt := true, sk := true, tee := false,
-           others := [⟨1, 1, 0, true⟩, ⟨2, 3, 4, true⟩] } ⟨1, 0, none⟩ 0
+           others := [⟨1, 1, 0, true⟩, ⟨2, 3, 4, true⟩] } ⟨1, 0, none, .netConn⟩ 0
       ⟨[[.hdr true, .list [], .proceed]],
        [.unit (.hdr true), .unit (.list [⟨2, true, true⟩, ⟨1, false, true⟩, ⟨9, false, true⟩])],
        [(0, ⟨0, false, false⟩), (1, ⟨2, false, false⟩)]⟩ 20).2 = .stop (.err .proto) := by
@@ -292,7 +343,7 @@ example :
 /-- … and with the older features.go (`sk = false`) the same script ended in a session -/
 example :
     (run { rr := false, rt := true, sk := false, tee := false,
-           others := [⟨1, 1, 0, true⟩, ⟨2, 3, 4, true⟩] } ⟨1, 0, none⟩ 0
+           others := [⟨1, 1, 0, true⟩, ⟨2, 3, 4, true⟩] } ⟨1, 0, none, .netConn⟩ 0
       ⟨[[.hdr true, .list [], .proceed]],
        [.unit (.hdr true), .unit (.list [⟨2, true, true⟩, ⟨1, false, true⟩, ⟨9, false, true⟩])],
        [(0, ⟨0, false, false⟩), (1, ⟨2, false, false⟩)]⟩ 20).2 = .done 7 true true := by
@@ -312,7 +363,7 @@ example : Compliant cfg1.toFCfg 0 := by
 /-- an empty first features list: the client asks for TLS anyway and, told to proceed, ends with
 a protected session — header and request in clear, everything else inside the layer -/
 example :
-    run cfg1 ⟨2, 3, none⟩ 0 ⟨[[.hdr true, .list []], [.proceed, .hdr true]], [.unit (.hdr true), .unit (.list [])],
+    run cfg1 ⟨2, 3, none, .stateMethod⟩ 0 ⟨[[.hdr true, .list []], [.proceed, .hdr true]], [.unit (.hdr true), .unit (.list [])],
       [(0, ⟨0, false, false⟩)]⟩ 10 =
     ([.wHdr false, .deliver true false, .deliver true false, .wStartTLS false, .deliver true false,
       .switch, .hello (.dom 2), .wHdr true, .deliver false true, .deliver false true], .done 5 true true) := by
@@ -320,26 +371,26 @@ example :
 
 /-- the hypothesis matters: a feature that does not require `Secure` does write in clear text -/
 example :
-    Ev.wOther 1 false ∈ (run { rr := false, rt := false, sk := true, others := [⟨1, 0, 0, true⟩], tee := false } ⟨0, 1, none⟩ 0
+    Ev.wOther 1 false ∈ (run { rr := false, rt := false, sk := true, others := [⟨1, 0, 0, true⟩], tee := false } ⟨0, 1, none, .plainRW⟩ 0
       ⟨[[.hdr true, .list [⟨0, false, true⟩, ⟨1, false, true⟩]]], [], [(1, ⟨0, false, false⟩)]⟩ 10).1 := by
   decide +kernel
 
 /-- the first-features-list flag matters: the same empty list read with the flag lost (what the
 negotiator did with a tee before the fix) makes the session ready in clear text -/
 example :
-    (loop cfg1 10 false { init ⟨0, 1, none⟩ 0 ⟨[[.hdr true, .list []]], [], []⟩ with first := false }).2
+    (loop cfg1 10 false { init ⟨0, 1, none, .plainRW⟩ 0 ⟨[[.hdr true, .list []]], [], []⟩ with first := false }).2
       = .done 4 false false := by
   decide +kernel
 
 /-- … and with the flag in place the client asks for TLS and, the peer being silent, fails -/
 example :
-    (loop cfg1 10 false (init ⟨0, 1, none⟩ 0 ⟨[[.hdr true, .list []]], [], [(0, ⟨0, false, false⟩)]⟩)).2
+    (loop cfg1 10 false (init ⟨0, 1, none, .plainRW⟩ 0 ⟨[[.hdr true, .list []]], [], [(0, ⟨0, false, false⟩)]⟩)).2
       = .stop (.err .read) := by
   decide +kernel
 
 /-- optional STARTTLS refused: an error, never a clear-text session -/
 example :
-    (run cfg1 ⟨0, 1, none⟩ 0 ⟨[[.hdr true, .list [⟨0, false, true⟩]], [.failure]], [], [(0, ⟨0, false, false⟩)]⟩ 10).2
+    (run cfg1 ⟨0, 1, none, .plainRW⟩ 0 ⟨[[.hdr true, .list [⟨0, false, true⟩]], [.failure]], [], [(0, ⟨0, false, false⟩)]⟩ 10).2
       = .stop (.err .refused) := by
   decide +kernel
 
